@@ -235,6 +235,22 @@ def eval_case(case):
     return sorted(set(out)), {"usable": True, "files": len(meta), "nontrivial": nontrivial}
 
 
+def schedule_judge(detail):
+    out = []
+    by_path = {}
+    for res in detail["results"]:
+        for cs in res.get("changeset", []):
+            by_path.setdefault(cs["path"], []).extend(cs["changes"])
+    for path in ("a/mod.py", "b/mod.py"):
+        after = detail["tree"].get(path, b"")
+        if b"random.random()" in after:
+            out.append(("schedule|sonar|reported-site-not-rewritten", f"{path}: the hotspot on line 3 is reported but random.random() is still there"))
+        with_finding = [c for c in by_path.get(path, []) if c.get("findings")]
+        if len(by_path.get(path, [])) != 1 or len(with_finding) != 1:
+            out.append(("schedule|sonar|change-entries-not-one-per-reported-site", f"{path}: {len(by_path.get(path, []))} change entries, {len(with_finding)} carrying a finding; one reported site"))
+    return out
+
+
 def cases(tier):
     out = []
     for s in sast_seeds():
@@ -277,6 +293,22 @@ def explore(tier, seed):
     for sig, rp, detail in rps:
         if sig in known_open:
             violations.append(Violation(PROP, sig, detail[:600], rp, 1))
+    # several workers: under every interleaving (<= 1 preemption) of the per-file tasks of a Sonar-driven codemod each reported
+    # site is rewritten in ITS file and carried by one change entry of that file's changeset
+    from . import c11a
+
+    r = c11a.explore_cached("sonar", "coarse", 1)
+    for h, detail in sorted(r["details"].items()):
+        for sig, what in schedule_judge(detail):
+            if sig in {v.signature for v in violations}:
+                continue
+            if sig not in known_open:
+                drive.init_inproc()
+                again = [dict(schedule_judge(c11a.run_once("sonar", r["outcomes"][h], "coarse")[2])) for _ in range(2)]
+                if not all(sig in a for a in again):
+                    divergence.append(sig)
+                    continue
+            violations.append(Violation(PROP, sig, f"under schedule {r['outcomes'][h][:30]}: {what}", {"schedule": "sonar", "choices": r["outcomes"][h], "sig": sig}, 1))
     all_sast = sorted({s.codemod for s in sast_seeds()})
     coverage = {
         "states": files + usable,
@@ -294,6 +326,7 @@ def explore(tier, seed):
         "copies": [2] if tier == "quick" else [2, 3],
         "column_offsets": [0, 4] if tier == "quick" else [0, 4, 8],
         "replay_divergence": divergence,
+        "schedule_outcomes_judged": {"driver": "sonar", "executions": r["executions"], "distinct_outcomes": len(r["outcomes"])},
         "rule": "state = (seed, n copies, column offset, subset of reported copies | decoy); one real run per program over all its files; non-trivial = a subset file with at least one reported copy",
     }
     assumptions = [
@@ -306,5 +339,11 @@ def explore(tier, seed):
 
 
 def replay(rp):
+    if "schedule" in rp:
+        from . import c11a
+
+        drive.init_inproc()
+        found = schedule_judge(c11a.run_once("sonar", rp["choices"], "coarse")[2])
+        return (rp["sig"] not in {s for s, _ in found}), "\n".join(f"{s}: {d}" for s, d in found) or "each reported site rewritten and carried in its own file"
     found, info = eval_case(tuple(rp["case"]))
     return (rp["sig"] not in {s for s, _ in found}), "\n".join(f"{s}: {d}" for s, d in found) or f"sites rewritten == sites reported ({info})"
